@@ -82,9 +82,9 @@ EXT = {
  'C07': ('payload finality of forwarded status flags, who may write its own parameters, first/last from the position in the block', ''),
  'C08': ('payload finality, MRO winners of the node-parallel sweepers, overridden life-cycle callbacks call super, no stale per-rank copy of a refreshed matrix, no in-place write into the send buffer', 'MRO resolution over the SweeperMPI lineage'),
  'C09': ('dependency set-ups reach the base-class merge, validations read the declaring section (contradiction rule; found F28), user part last in every setup(), spread_from_first_restarted wiring, error-estimate restart as the else-arm of the complete non-convergence test', 'contradiction rule over description look-ups'),
- 'C10': ('tau term of every sweeper that can sit on a coarse level, collocation transfer matrices, node-parallel transfer normal forms, mass-matrix defect signature (shared rules); inherited tau enters through Rcoll only', ''),
+ 'C10': ('tau term of every sweeper that can sit on a coarse level, collocation transfer matrices, node-parallel transfer normal forms, mass-matrix defect signature (shared rules); inherited tau enters through Rcoll only; the initial guess reaches the solver (Krylov x0 carries u0, Newton iterate carries u0: 48 solver sites)', 'taint-style def-use closure from the u0 parameter'),
  'C11': ('mass-matrix restrict clause-wise, sibling call sites pass the same options, FFT prolongation copies every resolved mode', ''),
- 'C12': ('exact / complete cache keys (no near hits), solver and eval_f feed model helpers the same kind of time, operand-preparation agreement of sibling splittings, cached shared operators never changed in place, no overwrite_* / out= on an argument, Newton Jacobian = symbolic derivative of the Newton residual (12 loops), eval_f and solver prepare boundary entries identically (found F29)', 'memo-pattern analysis; forward def-use pass with strong updates; symbolic differentiation (sympy) of extracted expressions'),
+ 'C12': ('exact / complete cache keys (no near hits), solver and eval_f feed model helpers the same kind of time, operand-preparation agreement of sibling splittings, cached shared operators never changed in place, no overwrite_* / out= on an argument, Newton Jacobian = symbolic derivative of the Newton residual (12 loops), eval_f and solver prepare boundary entries identically (found F29), Newton residual = u - factor*F(u) - rhs and direct solve / closed form = inverse of I - factor*F for the F that eval_f of the same class assigns (34 solver sites, symbolic)', 'memo-pattern analysis; forward def-use pass with strong updates; symbolic differentiation (sympy) of extracted expressions'),
  'C14': ('exact accumulator, LogWork baseline, hook de-duplication by exact type, post_run under `last`, restart-generation override order, marker key constants', ''),
  'C15': ('residual always recomputed (no stage name), value chain of run() across blocks', ''),
  'C16': ('block tiling (finite fallback), readers rebuilt per call, properties derived from gRank store nothing', 'finite case analysis on extracted index expressions'),
